@@ -21,6 +21,8 @@ type envState struct {
 	hashApps   []hashApp
 	timers     []*timerRec
 	locks      map[*Value]int
+	budgetLabel string
+	budgetAt    int64
 }
 
 type hashApp struct {
@@ -342,6 +344,18 @@ func init() {
 			ex.env.allocBound = nil
 		} else {
 			ex.env.allocBound = b
+		}
+		return nil
+	}
+	harnessAPI["verifStepBudget"] = func(ex *Exec, fn *ssa.Function, a []Value) Value {
+		// verifStepBudget(label, n): the code run from here must finish within n interpreted
+		// instructions (n<=0 disables); exceeding it is a violation (non-termination), not "inconclusive".
+		ex.env.budgetLabel = argStr(ex, a[0])
+		n := argInt(ex, a[1])
+		if n <= 0 {
+			ex.env.budgetAt = 0
+		} else {
+			ex.env.budgetAt = ex.steps + n
 		}
 		return nil
 	}
